@@ -374,15 +374,29 @@ class SimPkgLoader(importlib.abc.Loader):
 
     def exec_module(self, module):
         w = self.world
-        n = w.n_import
-        w.n_import += 1
-        w.event("pkg-import", n, self.name)
-        f = w.faults.take("import", n)
+        dtmod = bool((w.packages.get(self.name) or {}).get("datatypes"))
+        f = None
+        if not dtmod:
+            # (the datatype registry of a schema remembers what it has
+            # loaded, so whether a datatype MODULE is imported at all depends
+            # on the schema's history: it is left out of the ordinal
+            # numbering and fails only by name)
+            n = w.n_import
+            w.n_import += 1
+            w.event("pkg-import", n, self.name)
+            f = w.faults.take("import", n)
         if f is None and w.pkg_faults.get(self.name) == "pkg-import-error":
             f = {"kind": "pkg-import-error"}
         if f is not None:
             w.fired(f)
             raise ImportError("simulated import failure of %s" % self.name)
+        if (w.packages.get(self.name) or {}).get("datatypes"):
+            # a plain module that provides datatype functions (the same
+            # callables as zcsim.simdt, under another dotted name)
+            from zcsim import simdt
+            for k, v in vars(simdt).items():
+                if k.startswith(("conv_", "Conv_", "keytype_", "sect_")):
+                    setattr(module, k, v)
 
     def get_data(self, path):
         w = self.world
